@@ -124,7 +124,12 @@ def project_fill(v):
             if iv <= -(2**31) + 1:
                 return [-1, 0]
             return [iv, 1]
-        return pv(float(v))
+        fv = float(v)
+        if fv == fv and abs(fv) not in (float("inf"),) and abs(fv) > 2**31:
+            # a huge FINITE float (e.g. finfo.min/max used as a sentinel): it is not an infinity; abstract it as a
+            # finite value beyond every alphabet value so that the algebra sees it compete with real -inf/+inf data
+            return [(-1 if fv < 0 else 1) * 2**30, 1]
+        return pv(fv)
     except Exception:
         return [0, -1]
 
